@@ -65,6 +65,8 @@ pub(crate) struct ThetaHashTable {
 
     entries: Vec<u64>,
     num_entries: usize,
+    /// True until the first value is offered (even one that is screened out by theta).
+    is_empty: bool,
 }
 
 impl ThetaHashTable {
@@ -90,6 +92,7 @@ impl ThetaHashTable {
             hash_seed,
             entries,
             num_entries: 0,
+            is_empty: true,
         }
     }
 
@@ -97,6 +100,8 @@ impl ThetaHashTable {
     ///
     /// Returns the hash value if it passes the theta threshold, otherwise 0.
     pub fn hash_and_screen<T: Hash>(&mut self, value: T) -> u64 {
+        // An offered value makes the sketch non-empty even if theta screens it out.
+        self.is_empty = false;
         let mut hasher = MurmurHash3X64128::with_seed(self.hash_seed);
         value.hash(&mut hasher);
         let (h1, _) = hasher.finish128();
@@ -164,6 +169,7 @@ impl ThetaHashTable {
         assert_eq!(self.entries[index], 0, "Entry should be empty");
         self.entries[index] = hash;
         self.num_entries += 1;
+        self.is_empty = false;
 
         // Check if we need to resize or rebuild
         let capacity = self.get_capacity();
@@ -268,6 +274,7 @@ impl ThetaHashTable {
         }
         self.entries.fill(0);
         self.num_entries = 0;
+        self.is_empty = true;
         self.theta = init_theta;
         self.lg_cur_size = init_lg_cur;
     }
@@ -284,7 +291,7 @@ impl ThetaHashTable {
 
     /// Check if empty
     pub fn is_empty(&self) -> bool {
-        self.num_entries == 0
+        self.is_empty
     }
 
     /// Get iterator over entries
